@@ -79,6 +79,11 @@ def extra(ctx, sc, r):
                     "the run ends by the ping/pong timeout", r["trace"][-300:], size=n)
 
 
+    if sc.get("kind") == "global-default" and (r["trace"].count(":dial:") > 1 or ":sleep:" in r["trace"] or r["trace"].endswith(":blocked")):
+        ctx.violate("terminates", "reconnects-although-reconnect-0-was-passed", sc, "an explicit reconnect=0 ends the run at the first loss",
+                    r["trace"][-300:], size=n)
+
+
 def closer_extra(ctx, sc, r):
     """real-only runs (second thread): the run must end (returned), verdicts come from the Spec."""
     extra(ctx, sc, r)
@@ -151,6 +156,18 @@ def scenarios(ctx):
         evs = c13.history(word) + TAILS["data-reply"]
         scs.append({"cbs": appsim.ALL, "runs": [[["E", evs]]], "plan": {cb: "o" * k + "c"}, "iv": 700, "to": 300,
                     "horizon": 80 * TPS, "tag": f"c@{cb}#{k}|keepalive", "kind": "keepalive"})
+    # keepalive + reconnection: every connection's ping thread must be gone when run_forever returns (not only the last one's)
+    # (these runs are judged by `extra` only — see `reconnect_scenarios`: the Spec's C14 clauses are written for one connection)
+    # the process-wide reconnect default (websocket.setReconnect) is set, the caller says `reconnect=0` explicitly: the
+    # run must end like any run without reconnection; and with the argument left out the default does apply (ends only
+    # by the server's close)
+    for end in ("eof", "reset", "proto", "refused", "rejected", "close-body", "close-empty"):
+        if end not in ENDINGS:
+            continue
+        word = () if "dial" in ENDINGS[end] else ("t", "p")
+        sc = scenario([(word, end)])
+        sc.update(rc_global=5 * TPS, rc_arg=0, kind="global-default", tag=sc["tag"] + "|setReconnect(5)+reconnect=0")
+        scs.append(sc)
     # (3) a second run after each ending (and a third), same object
     ends2 = [e for e in ENDINGS if e not in ("silence", "close-utf8", "close-code", "partial-eof")]
     for e1 in ends2:
@@ -182,6 +199,17 @@ def scenarios(ctx):
                       cbs=appsim.ALL if rnd.random() < 0.7 else rnd.randrange(256))
         sc["kind"] = "random"
         scs.append(sc)
+    return scs
+
+
+def reconnect_scenarios(ctx):
+    from props import c15
+    scs = []
+    for seq in (("Ee",), ("Er", "Ee"), ("Ee", "R", "Ee")):
+        for sched in ("", "1", "01"):
+            sc = c15.scenario(seq, 300, "close", ka=True, sched=sched)
+            sc.update(iv=4 * TPS, to=TPS, kind="keepalive", tag="reconnect+keepalive:" + "-".join(seq))
+            scs.append(sc)
     return scs
 
 
@@ -237,6 +265,8 @@ def run(ctx):
         appcheck.evaluate(ctx, "C14", first, cls_of=lambda sc: "corpus", extra_check=extra)
         appcheck.evaluate(ctx, "C14", second, cls_of=lambda sc: "corpus", extra_check=closer_extra, model=False)
     appcheck.evaluate(ctx, "C14", scenarios(ctx), cls_of=cls_of, extra_check=extra)
+    # reconnecting runs: model correspondence + the resource oracles of `extra` ("C14/resources" matches no Spec tag)
+    appcheck.evaluate(ctx, "C14/resources", reconnect_scenarios(ctx), cls_of=cls_of, extra_check=extra)
     appcheck.evaluate(ctx, "C14", closer_scenarios(ctx), cls_of=cls_of, extra_check=closer_extra, model=False)
 
     def lines_of(b):
